@@ -19,7 +19,7 @@
 From Coq Require Import String.
 From Coq Require Import List Ascii ZArith Bool.
 From Coq Require Import Floats.PrimFloat.
-From CGV Require Import Base.PyBase Base.PyVal Base.NxGraph Gen.HydroGen Hydro.Hydrogens Hydro.Fragments.
+From CGV Require Import Base.PyBase Base.PyVal Base.NxGraph Gen.HydroGen Hydro.Hydrogens Hydro.HydroDefs Hydro.Fragments.
 Import ListNotations.
 Open Scope Z_scope.
 
@@ -177,18 +177,21 @@ Record case := { c_skip : bool; c_before : graph; c_car : option graph;
     than the defaults, or without calling correct_aromatic_rings): the model is not compared on this case,
     but the PROPERTY is still judged on the molecule that was returned. *)
 
+(** the transcript must satisfy the contracts under which the theorems are stated: same skeleton
+    ([transcript_contract], also enforced inside the model) and a 1.5 order only between two aromatic atoms
+    ([arom_contractb], hypothesis of C09_rebuild_valence_exact) *)
+Definition transcript_ok (c : case) : bool :=
+  match c_car c with Some g1 => transcript_contract (c_before c) g1 && arom_contractb g1 | None => true end.
+
 Definition corr_ok (c : case) : bool :=
   forallb extra_ok (c_extra c) &&
   (if c_skip c || c_nocorr c then true else
+   transcript_ok c &&
    match rebuild_h_atoms_default (c_before c) (c_car c), c_after c with
    | Ok g, Some o => obs_eqb (observe g) o
    | Err _, None => true
    | _, _ => false
    end).
-
-(** the transcript must satisfy the contract under which the theorems are stated *)
-Definition transcript_ok (c : case) : bool :=
-  match c_car c with Some g1 => transcript_contract (c_before c) g1 | None => true end.
 
 Definition prop_fail (c : case) : nat :=
   if c_skip c then 0%nat else
